@@ -88,6 +88,38 @@ def do_run(name, checks, tier='quick'):
     json.dump(meta, open(f'{d}/meta.json', 'w'), indent=1)
 
 
+def do_runall(only=None):
+    """Re-run every seed against the check(s) that detected it, on a scratch
+    copy of /repo (OMEGA_SRC), so /repo itself is not touched."""
+    base = os.path.join(VERIF, 'seeded')
+    scratch = '/var/tmp/omega_seed_scratch'
+    bad = []
+    for name in sorted(os.listdir(base)):
+        if only and not name.startswith(only):
+            continue
+        d = os.path.join(base, name)
+        m = json.load(open(f'{d}/meta.json'))
+        checks = sorted({k.split(':')[0] for k, v in m['detected_by'].items()
+                         if v['detected']}) or [m['property']]
+        own = m['property']
+        if own in checks:
+            checks = [own]
+        sh(f'rm -rf {scratch}; mkdir -p {scratch}')
+        rc, out = sh(f'git -C /repo archive HEAD | tar -x -C {scratch}')
+        rc, out = sh(f'git apply {d}/patch.diff', cwd=scratch)
+        assert rc == 0, (name, out)
+        for c in checks[:1]:
+            rc, out = sh(f'./check {c} --tier quick', cwd=VERIF,
+                         env=dict(VERIF_NO_EVIDENCE='1', OMEGA_SRC=scratch))
+            ok = rc == 1 and 'VIOLATION' in out
+            print(name, c, 'rc', rc, 'DETECTED' if ok else 'MISSED/ERROR',
+                  flush=True)
+            if not ok:
+                bad.append((name, c, rc))
+    sh(f'rm -rf {scratch}')
+    print('not detected:', bad)
+
+
 def do_status():
     base = os.path.join(VERIF, 'seeded')
     for name in sorted(os.listdir(base)):
@@ -102,7 +134,9 @@ def do_status():
 
 
 if __name__ == '__main__':
-    if sys.argv[1] == 'status':
+    if sys.argv[1] == 'runall':
+        do_runall(sys.argv[2] if len(sys.argv) > 2 else None)
+    elif sys.argv[1] == 'status':
         do_status()
     elif sys.argv[1] == 'import':
         sys.exit(0 if do_import(*sys.argv[2:7]) else 1)
